@@ -761,6 +761,62 @@ static void longstr_eval(uint64_t idx, void *ctx) {
     check_tree(root, 0);
 }
 
+
+/* ================================================================== section wide ========================= */
+/* flat documents with very many (empty) containers: the parser's nesting counter must come back down after every
+ * container, empty or not - otherwise a flat document of ~1000 empty arrays is refused as "too deep" (added after a seeded
+ * change that skipped the decrement on the empty-array fast path).  kinds: 0 [[],[],...]  1 [{},{},...]
+ * 2 [{"i":k,"t":[]},...]  3 {"k0":[],"k1":{},...}  4 [[],{},[1],{"a":[]},...] */
+static const int WIDE_N[] = {1, 2, 10, 400, 998, 999, 1000, 1001, 1002, 1500, 2000};
+static uint64_t wide_total(void) { return 5ull * (sizeof(WIDE_N) / sizeof(WIDE_N[0])); }
+static void wide_eval(uint64_t idx, void *ctx) {
+    (void)ctx;
+    BEE_ITEM(idx);
+    item_begin();
+    int kind = (int)(idx % 5), n = WIDE_N[idx / 5];
+    int root = r_new(kind == 3 ? R_OBJ : R_ARR);
+    for (int i = 0; i < n; ++i) {
+        char key[16];
+        int c;
+        switch (kind) {
+            case 0: c = r_new(R_ARR); break;
+            case 1: c = r_new(R_OBJ); break;
+            case 2: {
+                c = r_new(R_OBJ);
+                int id = r_num((double)i), t = r_new(R_ARR);
+                r_setkey(id, "i", 1);
+                r_setkey(t, "t", 1);
+                r_append(c, id);
+                r_append(c, t);
+                break;
+            }
+            case 3:
+                c = r_new(i & 1 ? R_OBJ : R_ARR);
+                snprintf(key, sizeof(key), "k%d", i);
+                r_setkey(c, key, strlen(key));
+                break;
+            default:
+                if (i % 4 == 0) c = r_new(R_ARR);
+                else if (i % 4 == 1) c = r_new(R_OBJ);
+                else if (i % 4 == 2) {
+                    c = r_new(R_ARR);
+                    r_append(c, r_num(1));
+                } else {
+                    c = r_new(R_OBJ);
+                    int t = r_new(R_ARR);
+                    r_setkey(t, "a", 1);
+                    r_append(c, t);
+                }
+                break;
+        }
+        r_append(root, c);
+    }
+    V_COUNT("evaluations", 1);
+    if (n >= 998) V_COUNT("nontrivial", 1);
+    g_skip_compare = false;
+    check_tree(root, CT_NO_TEXT); /* API -> text (compact and formatted) -> parse -> compare with the reference */
+}
+
 /* ================================================================== section cmpcost ====================== */
 /* "a duplicate compares equal to its original" must also be *answered*: cJSON_Compare walks every member of an object
  * twice (a against b, then b against a; source/external/cJSON.c:3109-3138), recursively, so n nested objects cost 2^n
@@ -832,6 +888,7 @@ int main(int argc, char **argv) {
     bee_register("surrogate", surrogate_total, surrogate_eval, 20);
     bee_register("tree", tree_total, tree_eval, 20);
     bee_register("longstr", longstr_total, longstr_eval, 30);
+    bee_register("wide", wide_total, wide_eval, 60);
     bee_register("deep", deep_total, deep_eval, 60);
     bee_register("cmpcost", cmpcost_total, cmpcost_eval, 120);
     return bee_main(argc, argv);
